@@ -313,7 +313,25 @@ func init() {
 			return v
 		}
 	}
+	specTable["strings.SplitN"] = func(e *Exec, cc *callCtx) Val {
+		v := e.uninterp("ext_strings.SplitN", cc.args, cc.resT)
+		e.wellFormedResult(v)
+		n := cc.args[2].Term
+		e.assume(Implies(app(">", n, "0"), And(app(">=", app("s_len", v.Term), "1"), app("<=", app("s_len", v.Term), n))), "strings.SplitN(s, sep, n>0) returns between 1 and n substrings")
+		return v
+	}
 	specTable["reflect.DeepEqual"] = func(e *Exec, cc *callCtx) Val {
+		// on two map[string]string values: same nil-ness and same content
+		ta, oka := e.boxType[cc.args[0].Term]
+		tb, okb := e.boxType[cc.args[1].Term]
+		if oka && okb && types.Identical(unalias(ta).Underlying(), tStringMap) && types.Identical(unalias(tb).Underlying(), tStringMap) {
+			a, b := e.boxOf[cc.args[0].Term], e.boxOf[cc.args[1].Term]
+			dn, ds, vn, vs := e.mapNames(tStringMap)
+			d, v := e.comp(cc.st, dn, ds), e.comp(cc.st, vn, vs)
+			t := And(Eq(Eq(a, "0"), Eq(b, "0")), Eq(Select(d, a), Select(d, b)),
+				fmt.Sprintf("(forall ((kq String)) (=> (select %s kq) (= (select %s kq) (select %s kq))))", Select(d, a), Select(v, a), Select(v, b)))
+			return Val{T: cc.resT, Term: e.define(cc.f.prefix+"deqmap", "Bool", t)}
+		}
 		return Val{T: cc.resT, Term: e.define(cc.f.prefix+"deq", "Bool", e.deepEqualAny(cc.args[0].Term, cc.args[1].Term))}
 	}
 	specFuncs["ownerLen"] = func(e *Exec, env *Env, args []Val) (Val, error) {
